@@ -751,7 +751,8 @@ static int encode_section( const int16_t *inbuf,
     int *zrun_values = 0;
     do {
         CHECKED_MALLOC( weight_values, size*sizeof(int) );
-        CHECKED_MALLOC( zrun_values, size*sizeof(int) );
+        // one zero run before each weight and one after the last: up to size+1 runs
+        CHECKED_MALLOC( zrun_values, (size+1)*sizeof(int) );
 
         // Get weights (or weight indicies) AND zero-runs from the input weight stream.
         int i=0, n_weights = 0, zcnt;
